@@ -876,10 +876,22 @@ class PytatoKeyBuilder(LoopyKeyBuilder):
         self.rec(key_hash, key.data.tobytes())
 
     def update_for_numpy_scalar(self, key_hash: Any, key: Any) -> None:
-        # The raw bytes alone do not determine the scalar:
-        # np.float32(1) and np.int32(0x3f800000) share them.
+        import numpy as np
+        if isinstance(key, np.integer):
+            # np.int64(1) == 1, and expressions that differ only in that
+            # compare equal: integers are identified by value.
+            self.update_for_int(key_hash, int(key))
+        else:
+            # The raw bytes alone do not determine the scalar:
+            # np.float32(1) and np.int32(0x3f800000) share them.
+            self.rec(key_hash, key.dtype)
+            super().update_for_numpy_scalar(key_hash, key)
+
+    def update_for_DataWrapper(self, key_hash: Any, key: Any) -> None:
+        # The dtype of wrapped data is not a field of its own
+        # (and a wrapped numpy integer is identified by value above).
         self.rec(key_hash, key.dtype)
-        super().update_for_numpy_scalar(key_hash, key)
+        self.update_for_dataclass(key_hash, key)
 
     def update_for_TaggableCLArray(self, key_hash: Any, key: Any) -> None:
         from arraycontext.impl.pyopencl.taggable_cl_array import (  # pylint: disable=import-error
